@@ -346,7 +346,12 @@ func genC18BE(r *rand.Rand, run int, _ string) *Scenario {
 
 	sc := genBEBase(r, mode)
 	be := sc.BE
-	be.Keys, be.Groups = genKeys(r, 4, 0)
+	coll := 0
+	if chance(r, 0.3) {
+		coll = 2 + r.IntN(2) // colliding keys: every read of a slot held by another key is still one cache_miss
+	}
+
+	be.Keys, be.Groups = genKeys(r, 4, coll)
 	be.Cfg = BEConfig{TTLNs: pick(r, int64(0), -1, sec, 3600*sec), Jitter: pick(r, -1.0, 0), Strategy: r.IntN(3), Stats: true, Logger: chance(r, 0.2)}
 
 	if mode == "seq" {
@@ -428,11 +433,28 @@ func (r *beRun) oracleC18BE() {
 	m := map[string]bool{} // presence model (sequential runs only)
 	seq := len(r.sc.Clients) == 1
 	reads, writes, deletes, expiredAll := 0, 0, 0, 0
+	groups := newRefModel(r)
+
+	// a hash-keyed backend has one slot per 64-bit hash: a write evicts a colliding key's entry
+	put := func(key string) {
+		if groups.hashKeyed() {
+			for k := range m {
+				if groups.sameGroup(k, key) {
+					delete(m, k)
+
+					out.probe("colliding_write_replaced_entry")
+				}
+			}
+		}
+
+		m[key] = true
+	}
 
 	for _, op := range r.sc.Root { // pre-loaded by the root before the clients started
 		if op.Kind == "write" {
 			writes++
-			m[string(r.sc.Keys[op.Key])] = true
+
+			put(string(r.sc.Keys[op.Key]))
 		}
 	}
 
@@ -451,7 +473,8 @@ func (r *beRun) oracleC18BE() {
 		case "write", "store":
 			if rec.err == nil {
 				writes++
-				m[rec.key] = true
+
+				put(rec.key)
 			}
 		case "delete":
 			// sequential runs: an entry is really removed iff the presence model holds the key;
